@@ -2,6 +2,7 @@ SPECIFICATION Spec
 CONSTANT Family = "C02"
 CONSTANT MaxLen = 2
 CONSTANT Depth = 1
+CONSTANT SmallLeaves = FALSE
 CONSTANT MagTable <- Mags
 CONSTANT CallImmediatePlain = FALSE
 CONSTANT JudgeAmbiguousDelay = FALSE
